@@ -215,3 +215,26 @@ pub fn shape_of(block: &ast::Block) -> Shape {
     block.visit_with(&mut v);
     v.0
 }
+
+/// N-ast: fold `-<literal>` into a signed literal and drop the print-only radix hint, so that ASTs can be
+/// compared "after constant folding of literal signs" (C08).
+pub fn fold_literal_signs<T: truth::ast::Visitable>(x: &mut T) {
+    use truth::ast::VisitMut;
+    struct V;
+    impl VisitMut for V {
+        fn visit_expr(&mut self, e: &mut truth::Sp<ast::Expr>) {
+            ast::walk_expr_mut(self, e);
+            let folded = match &e.value {
+                ast::Expr::UnOp(op, inner) if op.value == ast::UnOpKind::Neg => match &inner.value {
+                    ast::Expr::LitInt { value, .. } => Some(ast::Expr::LitInt { value: value.wrapping_neg(), format: ast::IntFormat::SIGNED }),
+                    ast::Expr::LitFloat { value } => Some(ast::Expr::LitFloat { value: -*value }),
+                    _ => None,
+                },
+                ast::Expr::LitInt { value, .. } => Some(ast::Expr::LitInt { value: *value, format: ast::IntFormat::SIGNED }),
+                _ => None,
+            };
+            if let Some(f) = folded { e.value = f; }
+        }
+    }
+    x.visit_mut_with(&mut V);
+}
